@@ -1414,6 +1414,7 @@ func extractC03(c *ctxT) {
 	var names []string
 	factClaims := map[string]any{}
 	viewFacts := map[string]any{}
+	viewFieldFacts := map[string]any{}
 	for _, cl := range claims {
 		names = append(names, leanStr(cl.Name))
 		fmt.Fprintf(&sb, "/-! ### %s  (%s)\n  format %s -/\n\n", cl.Name, cl.Where, strings.ReplaceAll(leanStr(cl.Format), "-/", "- /"))
@@ -1486,6 +1487,7 @@ func extractC03(c *ctxT) {
 		view := c.c03HandlerView(cl.Name, ftv, classOnly)
 		sb.WriteString(c03ViewLean(cl.Name, view))
 		viewFacts[cl.Name] = view
+		viewFieldFacts[cl.Name] = c03ViewFields(view)
 
 		var fsegs []map[string]any
 		for _, s := range cl.Segs {
@@ -1581,5 +1583,6 @@ func extractC03(c *ctxT) {
 	c.write("C03.lean", sb.String())
 	c.facts["C03.claims"] = factClaims
 	c.facts["C03.handlerView"] = viewFacts
+	c.facts["C03.viewFields"] = viewFieldFacts
 	c.facts["C03.chains"] = fchains
 }
